@@ -235,10 +235,11 @@ Proof.
   assert (H2 : INV s2) by (apply INV_delete_service_row; exact H1).
   set (s3 := cleanup_mesh_topology nd sid v s2).
   assert (H3 : INV s3) by (eapply INV_core; [apply cleanup_mesh_topology_core|exact H2]).
-  set (s4 := if has_instance (sv_name v) s3 then s3 else _).
+  set (s4 := if has_instance (sv_name v) s3 then (if has_instance_kind (sv_name v) (sv_kind v) s3 then s3 else _) else _).
   assert (H4 : INV s4).
-  { subst s4. destruct (has_instance _ _); [exact H3|].
-    eapply INV_core; [apply cleanup_ksn_core|]. apply free_vip_INV. exact H3. }
+  { subst s4. destruct (has_instance _ _).
+    - destruct (has_instance_kind _ _ _); [exact H3|]. eapply INV_core; [apply cleanup_ksn_core|exact H3].
+    - eapply INV_core; [apply cleanup_ksn_core|]. apply free_vip_INV. exact H3. }
   set (s5 := match connect_name v with Some sn => _ | None => s4 end).
   assert (H5 : INV s5).
   { subst s5. destruct (connect_name v) as [sn|]; [|exact H4]. destruct (has_connect_instance sn s4); [exact H4|].
